@@ -139,6 +139,9 @@ class Sim:
                         acts.append(("failopen", X))
             else:
                 acts.append(("drop", X))
+                if "wsclosing" in self.adv and not getattr(c.ws, "closing", False) and getattr(self, "wsclosings", 0) < 1:
+                    # the connection starts going down (closing handshake / FIN seen): until onClose is delivered, sends fail
+                    acts.append(("closing", X))
                 if c.conn.up:
                     acts.append(("proc", X))
                 if c.conn.down:
@@ -251,6 +254,9 @@ class Sim:
             c.open()
         elif kind == "drop":
             c.drop()
+        elif kind == "closing":
+            self.wsclosings = getattr(self, "wsclosings", 0) + 1
+            c.ws.closing = True
         elif kind == "proc":
             self.world.server.process(c.conn, c.conn.up.popleft())
         elif kind == "rx":
@@ -273,6 +279,8 @@ class Sim:
         """fair completion: reconnect whoever may, deliver everything owed, complete stops, drain turns"""
         for _ in range(6):
             for i, c in enumerate(self.cl):
+                if c.conn is not None and getattr(c.ws, "closing", False):
+                    c.drop()        # a connection that started closing does finish closing
                 if c.conn is None and c.can_connect():
                     c.open()
             self.world.settle()
